@@ -187,6 +187,24 @@ func c20Build(p *Program, r *Report) {
 	default:
 		r.OK("trie.NewSlimTrie: caller memory not written", p.Pos(f.Pos()), fmt.Sprintf("%d reachable functions, %d write effects, none targets KEYS/VALUES/OPTS/ENC", len(a.reach), a.allWrites))
 	}
+	// retention: nothing the caller can still write (the key slice, the value slice and what the
+	// values point to, the option struct and its flags) is reachable from the returned trie.
+	// Encoder implementations of the analysed packages are followed, so an identity encoder
+	// (encode.Bytes returns its argument) carries the caller's value memory into whatever keeps
+	// the encoded bytes without copying them.
+	roots, retained := retainedParams(a, f)
+	if len(roots) == 0 {
+		r.Unk("trie.NewSlimTrie: caller memory not retained", p.Pos(f.Pos()), "no object found for the returned trie")
+	} else if len(retained) > 0 {
+		var s []string
+		for k, v := range retained {
+			s = append(s, k+" via "+abbreviate(v))
+		}
+		sort.Strings(s)
+		r.Bad("trie.NewSlimTrie: caller memory not retained", p.Pos(f.Pos()), "the returned trie can reach memory the caller still owns: "+strings.Join(s, "; "))
+	} else {
+		r.OK("trie.NewSlimTrie: caller memory not retained", p.Pos(f.Pos()), fmt.Sprintf("contents closure of the %d returned object(s) contains no KEYS/VALUES/OPTS object", len(roots)))
+	}
 	// also the index constructor, which builds keys/offsets itself
 	if g := p.Index.Func("NewSlimIndex"); g != nil && len(g.Params) == 2 {
 		b := newPts(p)
@@ -208,6 +226,34 @@ func c20Build(p *Program, r *Report) {
 }
 
 func init() { checks["C20"] = checkC20 }
+
+// retainedParams: caller-owned (kParam, other than the encoder) objects in the
+// contents closure of what f returns.
+func retainedParams(a *ptsAnalysis, f *ssa.Function) (oset, map[string]string) {
+	roots := oset{}
+	for _, ret := range returnsOf(f) {
+		if len(ret.Results) > 0 {
+			for o := range a.val(ret.Results[0]) {
+				roots[o] = true
+			}
+		}
+	}
+	retained := map[string]string{}
+	a.reachableObjs(roots, func(o *aobj, path string) bool {
+		top := o
+		for top.parent != nil {
+			top = top.parent
+		}
+		if top.kind == kParam && !strings.HasPrefix(top.name, "ENC") {
+			if _, dup := retained[top.name]; !dup {
+				retained[top.name] = path
+			}
+			return false
+		}
+		return true
+	})
+	return roots, retained
+}
 
 func controlC20(fx *Program, r *Report) {
 	pkg := fx.FxPkg("aliasing")
@@ -259,6 +305,24 @@ func controlC20(fx *Program, r *Report) {
 		a.add(f.Params[1], a.seedObj(kParam, "OPTS"))
 		a.solveWithClosures()
 		r.Control("C20.build", "aliasing."+tc.fn, (len(a.writes) > 0) == tc.want, fmt.Sprintf("expected flagged=%v: %d write(s) to caller memory", tc.want, len(a.writes)))
+	}
+	for _, tc := range []struct {
+		fn   string
+		want bool
+	}{{"BuildKeepingValues", true}, {"BuildCopyingValues", false}} {
+		f := pkg.Func(tc.fn)
+		if f == nil {
+			r.Control("C20.build", "aliasing."+tc.fn, false, "function not found")
+			continue
+		}
+		a := newPts(fx)
+		a.tracked = func(o *aobj) bool { return o.kind == kParam }
+		a.reachFn(f)
+		a.add(f.Params[0], a.seedObj(kParam, "ENC"))
+		a.add(f.Params[1], a.seedObj(kParam, "VALUES"))
+		a.solveWithClosures()
+		_, retained := retainedParams(a, f)
+		r.Control("C20.build", "aliasing."+tc.fn, (len(retained) > 0) == tc.want, fmt.Sprintf("expected flagged=%v: retained %v", tc.want, retained))
 	}
 }
 
